@@ -244,7 +244,12 @@ def box_data(spec, lv, bid, k):
     if mode == "smallint":
         r = np.random.RandomState((spec["data"]["seed"] + 1000003 * lv + 10007 * bid + 101 * k) % (1 << 31))
         return r.randint(-64, 65, size=n).astype("float64").reshape(shape, order="F")
+    if mode in EXTRA_MODES:
+        return EXTRA_MODES[mode](spec, lv, bid, k)
     raise ValueError(mode)
+
+
+EXTRA_MODES = {}      # payload modes registered by checkers (e.g. thermochemical states for chef)
 
 
 # --------------------------------------------------------------------------- writer
